@@ -33,6 +33,9 @@ def main():
     # make sure the worktree holds exactly the patch, on top of /repo's current HEAD
     sh('git -C %s checkout -- trashcli' % wt)
     head = sh('git -C /repo rev-parse HEAD').stdout.strip()
+    if '--at' in sys.argv:
+        # a change whose demo (or whose hook) depends on behaviour that a later fix: commit altered is evaluated on the commit it was written for
+        head = sh('git -C /repo rev-parse %s' % sys.argv[sys.argv.index('--at') + 1]).stdout.strip()
     sh('git -C %s checkout -q --detach %s' % (wt, head))
     r = sh('git -C %s apply %s' % (wt, patch))
     assert r.returncode == 0, r.stdout
@@ -67,6 +70,7 @@ def main():
     notes = os.path.join(out, 'notes.md')
     meta = {
         'breaks_property': prop,
+        'evaluated_at_repo_commit': head,
         'slug': slug,
         'summary': summary,
         'needs_to_manifest': open(notes).read()[:1500] if os.path.exists(notes) else '',
